@@ -5,89 +5,117 @@ Import ListNotations.
 Close Scope Q_scope.
 
 (* ------------------------------------------------------------------ shapes *)
-(* what never changes in a stack: the kinds, the loggers' configuration, the standardisers' parameters *)
-Inductive kind :=
-| KPlain | KLogger (name level : N) (msg : str) | KStd (sp : sparams) | KBuffer.
+(* what never changes in a stack: the kinds and the loggers' configuration (scripts are consumed) *)
+Inductive kind := KPlain | KLogger (name level : N) (msg : str) | KOpaque (cls : N).
 
 Definition kind_of (d : deco) : kind :=
   match d with
   | Plain => KPlain
   | LoggerD n l m => KLogger n l m
-  | StandardiserD sp _ => KStd sp
-  | BufferD _ => KBuffer
+  | OpaqueD c _ => KOpaque c
   end.
 
 Definition shape (st : stack) : list kind := map kind_of st.
 
-Lemma read_demand_shape : forall st p, shape (snd (read_demand st p)) = shape st.
-Proof.
-  induction st as [|d r IH]; intros p; [reflexivity|].
-  destruct d as [|n l m|sp s|s]; cbn [read_demand];
-    try (specialize (IH p); destruct (read_demand r p) as [x r'] eqn:E; cbn [snd shape map kind_of] in *;
-         f_equal; exact IH).
-Qed.
-
 Lemma shape_length : forall a b, shape a = shape b -> length a = length b.
 Proof. intros a b H. unfold shape in H. rewrite <- (map_length kind_of a), H. apply map_length. Qed.
 
-Lemma read_demand_length : forall st p, length (snd (read_demand st p)) = length st.
-Proof. intros. apply shape_length. apply read_demand_shape. Qed.
+Definition same_attrs (p p' : pool) : Prop :=
+  p_supply p' = p_supply p /\ p_util p' = p_util p /\ p_alloc p' = p_alloc p.
+
+Lemma same_attrs_refl : forall p, same_attrs p p.
+Proof. intros p. repeat split. Qed.
+Lemma same_attrs_trans : forall a b c, same_attrs a b -> same_attrs b c -> same_attrs a c.
+Proof. intros a b c [x1 [x2 x3]] [y1 [y2 y3]]. repeat split; congruence. Qed.
+
+(* ------------------------------------------------------------------ reads keep the composition *)
+Definition R_shape (R : stack -> pool -> option (Q * stack)) : Prop :=
+  forall r p x r', R r p = Some (x, r') -> shape r' = shape r.
+
+Lemma rd_iter_shape : forall R, R_shape R -> forall k r p r', rd_iter R k r p = Some r' -> shape r' = shape r.
+Proof.
+  intros R HR. induction k as [|k IH]; intros r p r' H; cbn [rd_iter] in H.
+  - inversion H. reflexivity.
+  - destruct (R r p) as [[x r1]|] eqn:E; [|discriminate].
+    rewrite (IH _ _ _ H). eapply HR. exact E.
+Qed.
+
+Lemma rd_shape : forall f, R_shape (rd f).
+Proof.
+  induction f as [|f IH]; intros st p x st' H.
+  - destruct st; cbn [rd] in H; [inversion H; reflexivity|discriminate].
+  - destruct st as [|d r]; cbn [rd] in H; [inversion H; reflexivity|].
+    destruct d as [|n l m|c sc].
+    + destruct (rd f r p) as [[y r1]|] eqn:E; [|discriminate]. inversion H; subst.
+      cbn [shape map kind_of]. f_equal. eapply IH. exact E.
+    + destruct (rd f r p) as [[y r1]|] eqn:E; [|discriminate]. inversion H; subst.
+      cbn [shape map kind_of]. f_equal. eapply IH. exact E.
+    + destruct sc as [|[k ret|v0 acts] sc]; try discriminate.
+      destruct (rd_iter (rd f) k r p) as [r1|] eqn:E; [|discriminate]. inversion H; subst.
+      cbn [shape map kind_of]. f_equal. eapply rd_iter_shape; [exact IH|exact E].
+Qed.
+
+Lemma read_demand_shape : forall st p x st', read_demand st p = Some (x, st') -> shape st' = shape st.
+Proof. intros st p x st' H. eapply rd_shape. exact H. Qed.
 
 (* ------------------------------------------------------------------ 1. supply / utilisation / allocation *)
 Lemma reads_transparent : forall st p a, read_through st p a = attr_of a p.
 Proof. induction st as [|d r IH]; intros p a; cbn [read_through]; [reflexivity|apply IH]. Qed.
 
-Definition same_attrs (p p' : pool) : Prop :=
-  p_supply p' = p_supply p /\ p_util p' = p_util p /\ p_alloc p' = p_alloc p.
+Definition W_ok (W : stack -> pool -> Q -> option (list effect * stack * pool)) : Prop :=
+  forall r p v e r' p', W r p v = Some (e, r', p') -> same_attrs p p' /\ shape r' = shape r.
 
-Lemma write_go_facts : forall sp st p v,
-  let '(e, st', p') := write_go sp st p v in same_attrs p p' /\ shape st' = shape st.
+Lemma acts_go_ok : forall R W, R_shape R -> W_ok W ->
+  forall acts r p e r' p', acts_go R W acts r p = Some (e, r', p') -> same_attrs p p' /\ shape r' = shape r.
 Proof.
-  induction sp as [|x sp IH]; intros st p v.
-  - destruct st as [|d r]; cbn [write_go]; repeat split.
-  - destruct st as [|d r]; cbn [write_go]; [repeat split|].
-    destruct d as [|n l m|prm s|s].
-    + specialize (IH r p v). destruct (write_go sp r p v) as [[e r'] p']. destruct IH as [A B].
-      split; [exact A|]. cbn [shape map kind_of]. f_equal. exact B.
-    + pose proof (read_demand_shape r p) as Hs. destruct (read_demand r p) as [dm r1]. cbn [snd] in Hs.
-      specialize (IH r1 p v). destruct (write_go sp r1 p v) as [[e r2] p']. destruct IH as [A B].
-      split; [exact A|]. cbn [shape map kind_of]. f_equal. unfold shape in *. congruence.
-    + match goal with |- context[write_go sp r p ?w] => specialize (IH r p w); destruct (write_go sp r p w) as [[e r'] p'] end.
-      destruct IH as [A B]. split; [exact A|]. cbn [shape map kind_of]. f_equal. exact B.
-    + repeat split.
+  intros R W HR HW. induction acts as [|a rest IH]; intros r p e r' p' H; cbn [acts_go] in H.
+  - inversion H; subst. split; [apply same_attrs_refl|reflexivity].
+  - destruct a as [|w].
+    + destruct (R r p) as [[x r1]|] eqn:E; [|discriminate].
+      destruct (IH _ _ _ _ _ H) as [A B]. split; [exact A|].
+      etransitivity; [exact B|]. eapply HR. exact E.
+    + destruct (W r p w) as [[[e1 r1] p1]|] eqn:E; [|discriminate].
+      destruct (acts_go R W rest r1 p1) as [[[e2 r2] p2]|] eqn:E2; [|discriminate]. inversion H; subst.
+      destruct (HW _ _ _ _ _ _ E) as [A1 B1]. destruct (IH _ _ _ _ _ E2) as [A2 B2].
+      split; [eapply same_attrs_trans; eassumption|congruence].
 Qed.
 
-Lemma write_preserves : forall st p v,
-  let '(e, st', p') := write st p v in same_attrs p p' /\ shape st' = shape st.
-Proof. intros. unfold write. apply write_go_facts. Qed.
-
-(* the recursion budget of write_go is irrelevant once it covers the stack *)
-Lemma write_go_spine : forall sp sp' st p v,
-  length st <= length sp -> length st <= length sp' -> write_go sp st p v = write_go sp' st p v.
+Lemma wr_ok : forall f, W_ok (wr f).
 Proof.
-  induction sp as [|x sp IH]; intros sp' st p v H1 H2.
-  - destruct st; [destruct sp'; reflexivity|cbn in H1; lia].
-  - destruct st as [|d r]; [destruct sp'; reflexivity|].
-    destruct sp' as [|y sp']; [cbn in H2; lia|]. cbn [length] in H1, H2.
-    cbn [write_go]. destruct d as [|n l m|prm s|s].
-    + rewrite (IH sp' r p v); [reflexivity|lia|lia].
-    + pose proof (read_demand_length r p) as Hl. destruct (read_demand r p) as [dm r1]. cbn [snd] in Hl.
-      rewrite (IH sp' r1 p v); [reflexivity|lia|lia].
-    + match goal with |- context[write_go sp r p ?w] => rewrite (IH sp' r p w); [reflexivity|lia|lia] end.
-    + reflexivity.
+  induction f as [|f IH]; intros st p v e st' p' H.
+  - destruct st; cbn [wr] in H; [|discriminate]. inversion H; subst. split; [repeat split|reflexivity].
+  - destruct st as [|d r]; cbn [wr] in H.
+    + inversion H; subst. split; [repeat split|reflexivity].
+    + destruct d as [|n l m|c sc].
+      * destruct (wr f r p v) as [[[e1 r1] p1]|] eqn:E; [|discriminate]. inversion H; subst.
+        destruct (IH _ _ _ _ _ _ E) as [A B]. split; [exact A|]. cbn [shape map kind_of]. f_equal. exact B.
+      * destruct (rd f r p) as [[dm r1]|] eqn:E0; [|discriminate].
+        destruct (wr f r1 p v) as [[[e1 r2] p1]|] eqn:E; [|discriminate]. inversion H; subst.
+        destruct (IH _ _ _ _ _ _ E) as [A B]. split; [exact A|]. cbn [shape map kind_of]. f_equal.
+        etransitivity; [exact B|]. eapply rd_shape. exact E0.
+      * destruct sc as [|[k ret|v0 acts] sc]; try discriminate.
+        destruct (Qeq_bool v0 v); [|discriminate].
+        destruct (acts_go (rd f) (wr f) acts r p) as [[[e1 r1] p1]|] eqn:E; [|discriminate]. inversion H; subst.
+        destruct (acts_go_ok _ _ (rd_shape f) IH _ _ _ _ _ _ E) as [A B].
+        split; [exact A|]. cbn [shape map kind_of]. f_equal. exact B.
 Qed.
 
-(* histories: what is read through the stack is the pool's current value, and only PoolState
-   operations change it *)
+Lemma write_preserves : forall st p v e st' p', write st p v = Some (e, st', p') ->
+  same_attrs p p' /\ shape st' = shape st.
+Proof. intros st p v e st' p' H. eapply wr_ok. exact H. Qed.
+
+(* histories *)
 Lemma step_attrs : forall st p o,
   let '(ob, st', p') := step st p o in
   shape st' = shape st /\ ((forall s u a, o <> PoolState s u a) -> same_attrs p p').
 Proof.
   intros st p o. destruct o as [|v|s u a|d]; cbn [step].
-  - pose proof (read_demand_shape st p) as H. destruct (read_demand st p) as [d st']. cbn [snd] in H.
-    split; [exact H|]. intros _. repeat split.
-  - pose proof (write_preserves st p v) as H. destruct (write st p v) as [[e st'] p']. destruct H as [A B].
-    split; [exact B|]. intros _. exact A.
+  - destruct (read_demand st p) as [[d st']|] eqn:E.
+    + split; [eapply read_demand_shape; exact E|]. intros _. apply same_attrs_refl.
+    + split; [reflexivity|]. intros _. apply same_attrs_refl.
+  - destruct (write st p v) as [[[e st'] p']|] eqn:E.
+    + destruct (write_preserves _ _ _ _ _ _ E) as [A B]. split; [exact B|]. intros _. exact A.
+    + split; [reflexivity|]. intros _. apply same_attrs_refl.
   - split; [reflexivity|]. intros H. exfalso. apply (H s u a). reflexivity.
   - split; [reflexivity|]. intros _. repeat split.
 Qed.
@@ -99,160 +127,251 @@ Lemma run_attrs : forall ops st p,
   /\ forall a, read_through st' p' a = attr_of a p'.
 Proof.
   induction ops as [|o r IH]; intros st p; cbn [run].
-  - repeat split. intros a. apply reads_transparent.
+  - split; [reflexivity|]. split; [intros _; apply same_attrs_refl|]. intros a. apply reads_transparent.
   - pose proof (step_attrs st p o) as Hs. destruct (step st p o) as [[ob st1] p1]. destruct Hs as [S1 A1].
     specialize (IH st1 p1). destruct (run st1 p1 r) as [[rest st2] p2]. destruct IH as [S2 [A2 R2]].
     split; [congruence|]. split; [|exact R2].
-    intros Hno.
-    assert (H1 : same_attrs p p1) by (apply A1; apply Hno; left; reflexivity).
-    assert (H2 : same_attrs p1 p2) by (apply A2; intros o' Ho'; apply Hno; right; exact Ho').
-    destruct H1 as [a1 [a2 a3]]. destruct H2 as [b1 [b2 b3]]. repeat split; congruence.
+    intros Hno. eapply same_attrs_trans.
+    + apply A1. apply Hno. left. reflexivity.
+    + apply A2. intros o' Ho'. apply Hno. right. exact Ho'.
 Qed.
 
 (* ------------------------------------------------------------------ 2. plain decorators and Loggers pass demand *)
 Definition pl_only (st : stack) : bool :=
   forallb (fun d => match d with Plain | LoggerD _ _ _ => true | _ => false end) st.
 
-Lemma pl_read_demand : forall st p, pl_only st = true -> read_demand st p = (p_demand p, st).
+Lemma pl_rd : forall f st p, pl_only st = true -> length st <= f -> rd f st p = Some (p_demand p, st).
 Proof.
-  induction st as [|d r IH]; intros p H; [reflexivity|].
-  cbn [pl_only forallb] in H. apply andb_true_iff in H. destruct H as [Hd Hr].
-  destruct d as [|n l m|sp s|s]; try discriminate; cbn [read_demand]; rewrite (IH p Hr); reflexivity.
-Qed.
-
-(* the records a write of v produces in a plain/Logger stack over pool p *)
-Fixpoint pl_records (st : stack) (p : pool) (v : Q) : list effect :=
-  match st with
-  | [] => []
-  | LoggerD n l m :: r =>
-      Log n l m (mkFields v (p_demand p) (p_supply p) (p_util p) (p_alloc p) (p_alloc p) (length r))
-      :: pl_records r p v
-  | _ :: r => pl_records r p v
-  end.
-
-Lemma pl_write_go : forall sp st p v, pl_only st = true -> length st <= length sp ->
-  write_go sp st p v = (pl_records st p v ++ [PoolWrite v], st, set_demand p v).
-Proof.
-  induction sp as [|x sp IH]; intros st p v H Hl.
+  induction f as [|f IH]; intros st p H Hl.
   - destruct st; [reflexivity|cbn in Hl; lia].
   - destruct st as [|d r]; [reflexivity|].
     cbn [pl_only forallb] in H. apply andb_true_iff in H. destruct H as [Hd Hr]. cbn [length] in Hl.
-    destruct d as [|n l m|prm s|s]; try discriminate; cbn [write_go pl_records].
+    destruct d as [|n l m|c sc]; try discriminate; cbn [rd]; rewrite (IH r p Hr); try lia; reflexivity.
+Qed.
+
+(* what a write of v does in a plain/Logger stack over pool p *)
+Fixpoint pl_effects (st : stack) (p : pool) (v : Q) : list effect :=
+  match st with
+  | [] => [PoolWrite v]
+  | LoggerD n l m :: r =>
+      Arrive (length r) v
+      :: Log n l m (mkFields v (p_demand p) (p_supply p) (p_util p) (p_alloc p) (p_alloc p) (length r))
+      :: pl_effects r p v
+  | _ :: r => Arrive (length r) v :: pl_effects r p v
+  end.
+
+Lemma pl_wr : forall f st p v, pl_only st = true -> length st <= f ->
+  wr f st p v = Some (pl_effects st p v, st, set_demand p v).
+Proof.
+  induction f as [|f IH]; intros st p v H Hl.
+  - destruct st; [reflexivity|cbn in Hl; lia].
+  - destruct st as [|d r]; [reflexivity|].
+    cbn [pl_only forallb] in H. apply andb_true_iff in H. destruct H as [Hd Hr]. cbn [length] in Hl.
+    destruct d as [|n l m|c sc]; try discriminate; cbn [wr pl_effects].
     + rewrite (IH r p v Hr); [reflexivity|lia].
-    + rewrite (pl_read_demand r p Hr). rewrite (IH r p v Hr); [|lia].
+    + rewrite (pl_rd f r p Hr); [|lia]. rewrite (IH r p v Hr); [|lia].
       rewrite !reads_transparent. reflexivity.
 Qed.
 
 Lemma plain_and_logger_pass_demand : forall st p v, pl_only st = true ->
-  read_demand st p = (p_demand p, st)
-  /\ write st p v = (pl_records st p v ++ [PoolWrite v], st, set_demand p v).
+  read_demand st p = Some (p_demand p, st)
+  /\ write st p v = Some (pl_effects st p v, st, set_demand p v).
 Proof.
-  intros st p v H. split; [apply pl_read_demand; exact H|]. unfold write. apply pl_write_go; [exact H|lia].
+  intros st p v H. split; [apply pl_rd; [exact H|lia]|apply pl_wr; [exact H|lia]].
 Qed.
 
 (* ------------------------------------------------------------------ 3. one record, before the write, with the before-values *)
 Lemma logger_write : forall n l m r p v,
   write (LoggerD n l m :: r) p v =
-    let target_after_read := snd (read_demand r p) in
-    let '(e, r', p') := write target_after_read p v in
-    (Log n l m (mkFields v (fst (read_demand r p)) (p_supply p) (p_util p) (p_alloc p) (p_alloc p) (length r)) :: e,
-     LoggerD n l m :: r', p').
+    match read_demand r p with
+    | Some (dm, target_after_read) =>
+        match write target_after_read p v with
+        | Some (e, r', p') =>
+            Some (Arrive (length r) v
+                  :: Log n l m (mkFields v dm (p_supply p) (p_util p) (p_alloc p) (p_alloc p) (length r))
+                  :: e, LoggerD n l m :: r', p')
+        | None => None
+        end
+    | None => None
+    end.
 Proof.
-  intros n l m r p v. unfold write at 1. cbn [write_go].
-  pose proof (read_demand_length r p) as Hl. destruct (read_demand r p) as [dm r1]. cbn [fst snd] in *.
-  unfold write. rewrite (write_go_spine r r1 r1 p v); [|lia|lia].
+  intros n l m r p v. unfold write at 1, read_demand. cbn [length wr].
+  destruct (rd (length r) r p) as [[dm r1]|] eqn:E; [|reflexivity].
+  unfold write. rewrite (shape_length _ _ (rd_shape _ _ _ _ _ E)).
   rewrite !reads_transparent. reflexivity.
 Qed.
 
-(* ------------------------------------------------------------------ 4. which Loggers a write reaches *)
-Definition is_log (e : effect) : bool := match e with Log _ _ _ _ => true | PoolWrite _ => false end.
+(* ------------------------------------------------------------------ 4. records = writes reaching the Logger *)
+Definition is_arrive (j : nat) (e : effect) : bool :=
+  match e with Arrive k _ => Nat.eqb k j | _ => false end.
+Definition is_log_at (j : nat) (e : effect) : bool :=
+  match e with Log _ _ _ f => Nat.eqb (f_target f) j | _ => false end.
+Definition count (f : effect -> bool) (e : list effect) : nat := length (filter f e).
 
-Definition log_key (e : effect) : option (N * N * str) :=
-  match e with Log n l m _ => Some (n, l, m) | PoolWrite _ => None end.
+Definition depth_of (e : effect) : option nat :=
+  match e with Arrive k _ => Some k | Log _ _ _ f => Some (f_target f) | PoolWrite _ => None end.
+Definition below (b : nat) (e : effect) : Prop := match depth_of e with Some k => k < b | None => True end.
 
-(* the Loggers above the first Buffer, outermost first *)
-Fixpoint reached (ks : list kind) : list (N * N * str) :=
+(* level with j levels under it *)
+Fixpoint kind_at (ks : list kind) (j : nat) : option kind :=
   match ks with
-  | [] => []
-  | KLogger n l m :: r => (n, l, m) :: reached r
-  | KBuffer :: _ => []
-  | _ :: r => reached r
+  | [] => None
+  | k :: r => if Nat.eqb j (length r) then Some k else kind_at r j
   end.
 
-Fixpoint has_buffer (ks : list kind) : bool :=
-  match ks with [] => false | KBuffer :: _ => true | _ :: r => has_buffer r end.
+Definition logger_at (ks : list kind) (j : nat) : bool :=
+  match kind_at ks j with Some (KLogger _ _ _) => true | _ => false end.
 
-(* effects of one write: the records of exactly the reached Loggers, in order, then the pool write
-   unless a Buffer holds the value back *)
-Definition write_shape (ks : list kind) (e : list effect) : Prop :=
-  exists logs tl, e = logs ++ tl
-    /\ map log_key logs = map Some (reached ks)
-    /\ (if has_buffer ks then tl = [] else exists v', tl = [PoolWrite v']).
-
-Lemma write_go_shape : forall sp st p v, length st <= length sp ->
-  write_shape (shape st) (fst (fst (write_go sp st p v))).
+Lemma kind_at_high : forall ks j, length ks <= j -> kind_at ks j = None.
 Proof.
-  induction sp as [|x sp IH]; intros st p v Hl.
-  - destruct st; [|cbn in Hl; lia]. cbn. exists [], [PoolWrite v]. repeat split. exists v. reflexivity.
-  - destruct st as [|d r].
-    + cbn. exists [], [PoolWrite v]. repeat split. exists v. reflexivity.
-    + cbn [length] in Hl. cbn [write_go]. destruct d as [|n l m|prm s|s].
-      * specialize (IH r p v ltac:(lia)). destruct (write_go sp r p v) as [[e r'] p']. exact IH.
-      * pose proof (read_demand_shape r p) as Hs. pose proof (read_demand_length r p) as Hn.
-        destruct (read_demand r p) as [dm r1]. cbn [snd] in Hs, Hn.
-        specialize (IH r1 p v ltac:(lia)). destruct (write_go sp r1 p v) as [[e r2] p'].
-        cbn [fst] in *. rewrite Hs in IH. destruct IH as [logs [tl [E [K B]]]].
-        exists (Log n l m (mkFields v dm (read_through r p Supply) (read_through r p Utilisation)
-                             (read_through r p Allocation) (read_through r p Allocation) (length r)) :: logs), tl.
-        cbn [shape map kind_of reached has_buffer log_key]. rewrite E. repeat split; [|exact B].
-        f_equal. exact K.
-      * match goal with |- context[write_go sp r p ?w] =>
-          specialize (IH r p w ltac:(lia)); destruct (write_go sp r p w) as [[e r'] p'] end.
-        exact IH.
-      * cbn. exists [], []. repeat split.
+  induction ks as [|k r IH]; intros j H; [reflexivity|]. cbn [kind_at length] in *.
+  destruct (Nat.eqb j (length r)) eqn:E; [apply Nat.eqb_eq in E; lia|]. apply IH. lia.
 Qed.
 
-Lemma write_records : forall st p v, write_shape (shape st) (fst (fst (write st p v))).
-Proof. intros. unfold write. apply write_go_shape. lia. Qed.
+Lemma count_app : forall f a b, count f (a ++ b) = count f a + count f b.
+Proof. intros. unfold count. rewrite filter_app, app_length. reflexivity. Qed.
 
-Definition count_logs (e : list effect) : nat := length (filter is_log e).
-
-Lemma write_shape_count : forall ks e, write_shape ks e -> count_logs e = length (reached ks).
+Lemma count_below : forall j b e, Forall (below b) e -> b <= j ->
+  count (is_arrive j) e = 0 /\ count (is_log_at j) e = 0.
 Proof.
-  intros ks e [logs [tl [E [K B]]]]. subst e. unfold count_logs. rewrite filter_app, app_length.
-  assert (Htl : filter is_log tl = []).
-  { destruct (has_buffer ks); [subst tl; reflexivity|]. destruct B as [v' ->]. reflexivity. }
-  rewrite Htl. cbn [length]. rewrite Nat.add_0_r.
-  assert (Hl : forall l ks', map log_key l = map Some ks' -> length (filter is_log l) = length ks').
-  { induction l as [|a l IHl]; intros [|k ks'] H; cbn in H; try discriminate; [reflexivity|].
-    destruct a as [n l0 m f|w]; cbn in H; [|discriminate]. cbn [filter is_log length]. f_equal.
-    apply IHl. inversion H. reflexivity. }
-  apply Hl. exact K.
+  intros j b e H Hb. induction H as [|x r Hx Hr IH]; [split; reflexivity|].
+  destruct IH as [I1 I2]. unfold count in *. cbn [filter].
+  destruct x as [k w|n l m f|w]; cbn [is_arrive is_log_at]; unfold below in Hx; cbn [depth_of] in Hx.
+  - destruct (Nat.eqb k j) eqn:E; [apply Nat.eqb_eq in E; lia|]. split; assumption.
+  - destruct (Nat.eqb (f_target f) j) eqn:E; [apply Nat.eqb_eq in E; lia|]. split; assumption.
+  - split; assumption.
 Qed.
 
-Definition obs_logs (o : obs) : nat := match o with OWrite e => count_logs e | _ => 0 end.
-Definition is_write (o : op) : bool := match o with Write _ => true | _ => false end.
+(* the property of an effect list produced under a stack of shape ks *)
+Definition balanced (ks : list kind) (e : list effect) : Prop :=
+  Forall (below (length ks)) e
+  /\ forall j, count (is_log_at j) e = if logger_at ks j then count (is_arrive j) e else 0.
 
-Fixpoint total_logs (l : list (obs * pool)) : nat :=
-  match l with [] => 0 | (o, _) :: r => obs_logs o + total_logs r end.
+Lemma balanced_nil : forall ks, balanced ks [].
+Proof. intros ks. split; [constructor|]. intros j. destruct (logger_at ks j); reflexivity. Qed.
 
-(* over any history: records = (writes) x (Loggers reached) *)
-Lemma records_through_stacks : forall ops st p,
-  total_logs (fst (fst (run st p ops))) = length (filter is_write ops) * length (reached (shape st)).
+Lemma balanced_app : forall ks a b, balanced ks a -> balanced ks b -> balanced ks (a ++ b).
 Proof.
-  induction ops as [|o r IH]; intros st p; cbn [run]; [reflexivity|].
-  pose proof (step_attrs st p o) as Hs.
-  assert (Ho : obs_logs (fst (fst (step st p o))) = (if is_write o then length (reached (shape st)) else 0)).
-  { destruct o as [|v|s u a|d]; cbn [step is_write].
-    - destruct (read_demand st p); reflexivity.
-    - pose proof (write_records st p v) as W. destruct (write st p v) as [[e st'] p']. cbn [fst obs_logs] in *.
-      apply write_shape_count. exact W.
-    - reflexivity.
-    - reflexivity. }
-  destruct (step st p o) as [[ob st1] p1]. destruct Hs as [S1 _]. cbn [fst] in Ho.
-  specialize (IH st1 p1). destruct (run st1 p1 r) as [[rest st2] p2]. cbn [fst] in *.
-  cbn [total_logs]. rewrite Ho, IH, S1. cbn [filter].
-  destruct (is_write o); cbn [length]; lia.
+  intros ks a b [A1 A2] [B1 B2]. split; [apply Forall_app; split; assumption|].
+  intros j. rewrite !count_app, A2, B2. destruct (logger_at ks j); reflexivity.
+Qed.
+
+Lemma balanced_pw : forall ks v, balanced ks [PoolWrite v].
+Proof.
+  intros ks v. split; [constructor; [exact I|constructor]|].
+  intros j. cbn. destruct (logger_at ks j); reflexivity.
+Qed.
+
+Lemma below_weaken : forall b b' e, b <= b' -> Forall (below b) e -> Forall (below b') e.
+Proof.
+  intros b b' e Hle H. eapply Forall_impl; [|exact H]. intros x Hx. unfold below in *.
+  destruct (depth_of x); [lia|exact I].
+Qed.
+
+(* putting a level k on top of ks: `hd` is what the level itself contributes at depth length ks *)
+Lemma balanced_cons : forall k ks hd e,
+  balanced ks e ->
+  Forall (fun x => depth_of x = Some (length ks)) hd ->
+  count (is_log_at (length ks)) hd = (match k with KLogger _ _ _ => count (is_arrive (length ks)) hd | _ => 0 end) ->
+  balanced (k :: ks) (hd ++ e).
+Proof.
+  intros k ks hd e [E1 E2] Hhd Hcnt. split.
+  - cbn [length]. apply Forall_app. split.
+    + eapply Forall_impl; [|exact Hhd]. intros x Hx. unfold below. rewrite Hx. lia.
+    + eapply below_weaken; [|exact E1]. lia.
+  - intros j. rewrite !count_app. unfold logger_at. cbn [kind_at].
+    destruct (Nat.eqb j (length ks)) eqn:Ej.
+    + apply Nat.eqb_eq in Ej. subst j.
+      destruct (count_below (length ks) (length ks) e E1 (Nat.le_refl _)) as [Z1 Z2]. rewrite Z1, Z2, Hcnt.
+      destruct k; lia.
+    + assert (Hz : count (is_arrive j) hd = 0 /\ count (is_log_at j) hd = 0).
+      { clear Hcnt. induction Hhd as [|x r Hx Hr IH]; [split; reflexivity|]. destruct IH as [I1 I2].
+        unfold count in *. cbn [filter].
+        destruct x as [q w|n l m f|w]; cbn [depth_of] in Hx; cbn [is_arrive is_log_at]; try discriminate.
+        - inversion Hx; subst. rewrite Nat.eqb_sym, Ej. split; assumption.
+        - inversion Hx as [Hf]. rewrite Hf, Nat.eqb_sym, Ej. split; assumption. }
+      destruct Hz as [Z1 Z2]. rewrite Z1, Z2. cbn [plus]. specialize (E2 j). unfold logger_at in E2. exact E2.
+Qed.
+
+Definition W_bal (W : stack -> pool -> Q -> option (list effect * stack * pool)) : Prop :=
+  forall r p v e r' p', W r p v = Some (e, r', p') -> balanced (shape r) e.
+
+Lemma acts_go_bal : forall R W, R_shape R -> W_ok W -> W_bal W ->
+  forall acts r p e r' p', acts_go R W acts r p = Some (e, r', p') -> balanced (shape r) e.
+Proof.
+  intros R W HR HW HB. induction acts as [|a rest IH]; intros r p e r' p' H; cbn [acts_go] in H.
+  - inversion H; subst. apply balanced_nil.
+  - destruct a as [|w].
+    + destruct (R r p) as [[x r1]|] eqn:E; [|discriminate].
+      rewrite <- (HR _ _ _ _ E). eapply IH. exact H.
+    + destruct (W r p w) as [[[e1 r1] p1]|] eqn:E; [|discriminate].
+      destruct (acts_go R W rest r1 p1) as [[[e2 r2] p2]|] eqn:E2; [|discriminate]. inversion H; subst.
+      apply balanced_app; [eapply HB; exact E|].
+      destruct (HW _ _ _ _ _ _ E) as [_ Hs]. rewrite <- Hs. eapply IH. exact E2.
+Qed.
+
+Lemma shape_len : forall st, length (shape st) = length st.
+Proof. intros. unfold shape. apply map_length. Qed.
+
+Lemma wr_bal : forall f, W_bal (wr f).
+Proof.
+  induction f as [|f IH]; intros st p v e st' p' H.
+  - destruct st; cbn [wr] in H; [|discriminate]. inversion H; subst. apply balanced_pw.
+  - destruct st as [|d r]; cbn [wr] in H; [inversion H; subst; apply balanced_pw|].
+    destruct d as [|n l m|c sc].
+    + destruct (wr f r p v) as [[[e1 r1] p1]|] eqn:E; [|discriminate]. inversion H; subst.
+      cbn [shape map kind_of]. rewrite <- (shape_len r).
+      apply (balanced_cons KPlain (shape r) [Arrive (length (shape r)) v] e1); [eapply IH; exact E| |reflexivity].
+      constructor; [reflexivity|constructor].
+    + destruct (rd f r p) as [[dm r1]|] eqn:E0; [|discriminate].
+      destruct (wr f r1 p v) as [[[e1 r2] p1]|] eqn:E; [|discriminate]. inversion H; subst.
+      cbn [shape map kind_of]. rewrite <- (shape_len r).
+      match goal with |- balanced _ (?a :: ?b :: e1) =>
+        apply (balanced_cons (KLogger n l m) (shape r) [a; b] e1) end.
+      * rewrite <- (rd_shape _ _ _ _ _ E0). eapply IH. exact E.
+      * constructor; [reflexivity|]. constructor; [reflexivity|constructor].
+      * unfold count. cbn [filter is_log_at is_arrive f_target]. rewrite !Nat.eqb_refl. reflexivity.
+    + destruct sc as [|[k ret|v0 acts] sc]; try discriminate.
+      destruct (Qeq_bool v0 v); [|discriminate].
+      destruct (acts_go (rd f) (wr f) acts r p) as [[[e1 r1] p1]|] eqn:E; [|discriminate]. inversion H; subst.
+      cbn [shape map kind_of]. rewrite <- (shape_len r).
+      apply (balanced_cons (KOpaque c) (shape r) [Arrive (length (shape r)) v] e1); [| |reflexivity].
+      * eapply acts_go_bal; [apply rd_shape|apply wr_ok|exact IH|exact E].
+      * constructor; [reflexivity|constructor].
+Qed.
+
+(* one write through any stack with any scripts: at every Logger, records = arrivals; elsewhere no record *)
+Lemma records_match_arrivals : forall st p v e st' p', write st p v = Some (e, st', p') ->
+  forall j, count (is_log_at j) e = if logger_at (shape st) j then count (is_arrive j) e else 0.
+Proof. intros st p v e st' p' H. exact (proj2 (wr_bal _ _ _ _ _ _ _ H)). Qed.
+
+(* over any history *)
+Fixpoint run_count (f : effect -> bool) (l : list (obs * pool)) : nat :=
+  match l with
+  | [] => 0
+  | (OWrite e, _) :: r => count f e + run_count f r
+  | _ :: r => run_count f r
+  end.
+
+Lemma records_through_stacks : forall ops st p j,
+  run_count (is_log_at j) (fst (fst (run st p ops)))
+  = if logger_at (shape st) j then run_count (is_arrive j) (fst (fst (run st p ops))) else 0.
+Proof.
+  induction ops as [|o r IH]; intros st p j; cbn [run].
+  - cbn. destruct (logger_at (shape st) j); reflexivity.
+  - pose proof (step_attrs st p o) as Hs.
+    assert (Ho : forall e, fst (fst (step st p o)) = OWrite e ->
+              count (is_log_at j) e = if logger_at (shape st) j then count (is_arrive j) e else 0).
+    { intros e He. destruct o as [|v|s u a|d]; cbn [step] in He.
+      - destruct (read_demand st p) as [[d st']|]; discriminate.
+      - destruct (write st p v) as [[[e0 st'] p']|] eqn:E; [|discriminate]. cbn [fst] in He. inversion He; subst.
+        eapply records_match_arrivals. exact E.
+      - discriminate.
+      - discriminate. }
+    destruct (step st p o) as [[ob st1] p1]. destruct Hs as [S1 _]. cbn [fst] in Ho.
+    specialize (IH st1 p1 j). destruct (run st1 p1 r) as [[rest st2] p2]. cbn [fst] in *.
+    rewrite S1 in IH. destruct ob as [d s u a|e| |]; cbn [run_count]; try exact IH.
+    rewrite IH, (Ho e eq_refl). destruct (logger_at (shape st) j); reflexivity.
 Qed.
 
 (* ------------------------------------------------------------------ 5. templates *)
@@ -418,7 +537,7 @@ Qed.
 (* a Logger with a rejected template is never constructed, whatever lies below *)
 Lemma construct_rejects : forall name level msg inner p k,
   reaches_key (pct_scan test_fields msg) k -> known_field k = false ->
-  fst (construct (SLogger name level msg) inner p) = inl CRuntime.
+  fst (construct (SLogger name level msg) inner p) = BErr CRuntime.
 Proof.
   intros name level msg inner p k Hr Hk. cbn [construct].
   rewrite (unknown_field_rejected msg k Hr Hk). reflexivity.
